@@ -61,6 +61,20 @@ pub fn expand_self<T: VisitableMut + Clone>(input: &T, to: &Type) -> T {
     input
 }
 
+/// `ty` in a position where a `+` would be ambiguous (`&dyn A + B`, `&'a dyn A + B`).
+pub fn atomic_type(ty: &Type) -> Type {
+    let ambiguous = match ty {
+        Type::TraitObject(t) => t.bounds.len() > 1,
+        Type::ImplTrait(t) => t.bounds.len() > 1,
+        _ => false,
+    };
+    if ambiguous {
+        parse_quote!((#ty))
+    } else {
+        ty.clone()
+    }
+}
+
 /// The type `Ident<'a, T, { N }>` of an item. Const arguments are wrapped in braces so that a
 /// const parameter that has the name of a type in scope is not mistaken for that type.
 pub fn self_type(ident: &Ident, generics: &Generics) -> Type {
